@@ -3,16 +3,21 @@
 use crate::engine::{par_range, Acc, Ctx, Report, Tier};
 use serde_json::{json, Value};
 
+pub mod c02;
 pub mod c13;
+pub mod libx;
 
 pub struct Prop {
     pub run: fn(&Ctx) -> Report,
     pub replay: fn(&Value) -> Vec<(String, String)>,
     pub level_note: &'static str,
+    /// space table, needed by the isolating runner's child processes
+    pub spaces: Option<fn(Tier) -> Vec<Space>>,
 }
 
 pub fn lookup(id: &str) -> Option<Prop> {
     Some(match id {
+        "C02" => c02::PROP,
         "C13" => c13::PROP,
         _ => return None,
     })
@@ -34,16 +39,67 @@ pub struct Space {
     pub name: String,
     pub size: u64,
     pub eval: Box<dyn Fn(&Case, &mut Acc) + Sync + Send>,
+    /// evaluate in child processes (E3): cases here may abort the process
+    pub isolated: bool,
 }
 
 impl Space {
     pub fn new(name: &str, size: u64, eval: impl Fn(&Case, &mut Acc) + Sync + Send + 'static) -> Space {
-        Space { name: name.to_string(), size, eval: Box::new(eval) }
+        Space { name: name.to_string(), size, eval: Box::new(eval), isolated: false }
+    }
+    pub fn isolated(name: &str, size: u64, eval: impl Fn(&Case, &mut Acc) + Sync + Send + 'static) -> Space {
+        Space { name: name.to_string(), size, eval: Box::new(eval), isolated: true }
     }
 }
 
+/// Turn child deaths into violations. The key names the space and the way the process died.
+fn deaths_to_violations(id: &str, sp: &Space, tier: Tier, out: &mut crate::iso::IsoOutcome) {
+    for d in &out.deaths {
+        let class = if d.reason.contains("refused") {
+            "over-budget-allocation".to_string()
+        } else if d.reason.contains("SIGSEGV") || d.reason.contains("SIGBUS") {
+            "crash-SIGSEGV(stack-overflow?)".to_string()
+        } else if d.reason.contains("SIGABRT") {
+            "abort-SIGABRT".to_string()
+        } else {
+            "process-death".to_string()
+        };
+        let case = json!({"space": sp.name, "idx": d.idx, "tier": tier.name(), "isolated": true});
+        out.acc.violate(format!("{}/{}/kind={}", id, sp.name, class), d.idx, case, d.reason.clone());
+    }
+}
+
+pub fn run_spaces_for(id: &str, ctx: &Ctx, report: &mut Report, spaces: Vec<Space>) {
+    for sp in spaces {
+        let t0 = std::time::Instant::now();
+        let res = if sp.isolated {
+            let mut out = crate::iso::run_space_isolated(id, ctx.tier, &sp.name, sp.size, ctx.threads, 40);
+            if !out.unattributed.is_empty() {
+                for u in &out.unattributed {
+                    crate::out::line(&format!("MACHINERY-ERROR: {}", u));
+                }
+                std::process::exit(2);
+            }
+            deaths_to_violations(id, &sp, ctx.tier, &mut out);
+            out.acc.bump("isolated_child_deaths", out.deaths.len() as u64);
+            (out.acc, out.done)
+        } else {
+            par_range(ctx, sp.size, |i, acc| {
+                let case = Case { space: &sp.name, idx: i, tier: ctx.tier };
+                (sp.eval)(&case, acc);
+            })
+        };
+        if std::env::var("VERIF_VERBOSE").is_ok() {
+            crate::out::line(&format!("  space {} size {} done {} in {:.1}s{}", sp.name, sp.size, res.1, t0.elapsed().as_secs_f64(), if sp.isolated { " (isolated)" } else { "" }));
+        }
+        report.add_space(&sp.name, sp.size, res);
+    }
+}
+
+#[allow(dead_code)]
 pub fn run_spaces(ctx: &Ctx, report: &mut Report, spaces: Vec<Space>) {
     for sp in spaces {
+        assert!(!sp.isolated, "isolated spaces need run_spaces_for");
         let t0 = std::time::Instant::now();
         let res = par_range(ctx, sp.size, |i, acc| {
             let case = Case { space: &sp.name, idx: i, tier: ctx.tier };
@@ -54,6 +110,28 @@ pub fn run_spaces(ctx: &Ctx, report: &mut Report, spaces: Vec<Space>) {
         }
         report.add_space(&sp.name, sp.size, res);
     }
+}
+
+pub fn replay_spaces_for(id: &str, mk: fn(Tier) -> Vec<Space>, case: &Value) -> Vec<(String, String)> {
+    let tier = match case.get("tier").and_then(|t| t.as_str()) {
+        Some("thorough") => Tier::Thorough,
+        _ => Tier::Quick,
+    };
+    let name = case.get("space").and_then(|s| s.as_str()).unwrap_or("");
+    let idx = case.get("idx").and_then(|s| s.as_u64()).unwrap_or(u64::MAX);
+    for sp in mk(tier) {
+        if sp.name == name && sp.isolated && !crate::iso::in_child() {
+            if idx >= sp.size {
+                return vec![("machinery/replay-index-out-of-range".into(), format!("{} >= {}", idx, sp.size))];
+            }
+            // run exactly this one index in a child of our own
+            let exe_out = crate::iso::run_range_isolated(id, tier, &sp.name, idx, idx + 1);
+            let mut out = exe_out;
+            deaths_to_violations(id, &sp, tier, &mut out);
+            return out.acc.violations.into_iter().flat_map(|(k, (_, vs))| vs.into_iter().map(move |v| (k.clone(), v.detail))).collect();
+        }
+    }
+    replay_spaces(mk, case)
 }
 
 pub fn replay_spaces(mk: fn(Tier) -> Vec<Space>, case: &Value) -> Vec<(String, String)> {
